@@ -6,7 +6,7 @@ import numpy as np
 
 GROUPS = {"alp": ("ADMBASE", "admbase-lapse"), "betax": ("ADMBASE", "admbase-shift"),
           "betay": ("ADMBASE", "admbase-shift"), "betaz": ("ADMBASE", "admbase-shift"),
-          "rho": ("HYDROBASE", "hydrobase-rho"), "foo": ("MYTHORN", "mythorn-stuff"), "bar": ("MYTHORN", "mythorn-stuff")}
+          "rho": ("HYDROBASE", "hydrobase-rho"), "foo": ("MYTHORN", "mythorn-stuff"), "bar": ("MYTHORN", "mythorn-stuff"), "baz": ("MYTHORN", "mythorn-stuff")}
 VARS_DEFAULT = ["alp", "betax", "betay", "betaz"]
 AUREL_NAME = {"alp": "alpha", "rho": "rho0"}
 
